@@ -41,8 +41,8 @@ REACTIONS = ["raise", "ignore", "warn", "print", "call"]
 DEFAULT = {k: "raise" for k in KINDS}
 DEFAULT["empty"] = "ignore"
 SITES = {"empty": ["ctor", "filter", "copy", "transform_copy"],
-         "obsdup": ["ctor", "update_ids", "copy", "transform_copy"],
-         "sampdup": ["ctor", "update_ids", "copy"],
+         "obsdup": ["ctor", "update_ids", "copy", "transform_copy", "load"],
+         "sampdup": ["ctor", "update_ids", "copy", "load"],
          "obssize": ["ctor", "ctor_zero", "ctor_rows", "ctor_rowdicts",
                      "ctor_sparse", "ctor_md"],
          "sampsize": ["ctor", "ctor_zero", "ctor_rows", "ctor_rowdicts",
@@ -88,6 +88,34 @@ def trigger(kind, site):
         if site == "copy":
             return lambda: base.copy()
         return lambda: base.pa(inplace=False)
+    if kind in ("obsdup", "sampdup") and site == "load":
+        # a JSON document naming an ID twice, read with load_table
+        import json as _json
+        rows = [{"id": i, "metadata": None} for i in
+                (["a", "a"] if kind == "obsdup" else ["o1", "o2"])]
+        cols = [{"id": i, "metadata": None} for i in
+                (["a", "a"] if kind == "sampdup" else ["s1", "s2"])]
+        doc = {"id": None, "format": "Biological Observation Matrix 1.0.0",
+               "format_url": "http://biom-format.org",
+               "type": "OTU table", "generated_by": "vf",
+               "date": "2020-01-02T03:04:05", "matrix_type": "sparse",
+               "matrix_element_type": "float", "shape": [2, 2],
+               "data": [[0, 0, 1.0], [1, 1, 2.0]], "rows": rows,
+               "columns": cols}
+        fd, path = tempfile.mkstemp(prefix="vf-c20-", suffix=".biom",
+                                    dir="/dev/shm" if os.path.isdir(
+                                        "/dev/shm") else None)
+        with os.fdopen(fd, "w") as f:
+            _json.dump(doc, f)
+
+        def load():
+            from biom import load_table
+            try:
+                return load_table(path)
+            finally:
+                if os.path.exists(path):
+                    os.remove(path)
+        return load
     if kind == "obsdup":
         if site == "update_ids":
             t = Table(a, ["o1", "o2"], ["s1", "s2"])
@@ -273,6 +301,8 @@ def flat_statements():
          "wfilter": "error"},
         {"s": "cbswap", "kind": "obsdup", "first": "cb1", "second": "cb2",
          "site": 0},
+        {"s": "partition_loop", "remove_empty": True,
+         "body": [{"s": "probe", "kind": "empty", "site": "ctor"}]},
     ]
 
 
@@ -312,11 +342,15 @@ def statements(depth):
     )
     if depth <= 0:
         return simple
+    loop = st.builds(
+        lambda re_, body: {"s": "partition_loop", "remove_empty": re_,
+                           "body": body},
+        st.booleans(), st.lists(simple, max_size=2))
     block = st.builds(
         lambda kw, body, exc: {"s": "errstate", "kw": kw, "body": body,
                                "raise": exc},
         KW, st.lists(statements(depth - 1), max_size=4), st.booleans())
-    return st.one_of(simple, simple, block)
+    return st.one_of(simple, simple, simple, block, block, loop)
 
 
 def strategy(tier):
@@ -450,6 +484,22 @@ def run(program, model, rec, path, stats):
                  {"s": "seterrcall", "kind": k_, "cb": stmt["second"]},
                  {"s": "probe", "kind": k_, "site": stmt["site"]}],
                 model, rec, path + "[%d]<" % idx, stats)
+        elif s == "partition_loop":
+            # the caller's code between two parts of a partition() runs
+            # under the caller's profile
+            from biom import Table
+            t_ = Table(np.array([[1.0, 0.0, 2.0], [0.0, 4.0, 3.0]]),
+                       ["o1", "o2"], ["s1", "s2", "s3"])
+            n_parts = 0
+            for _lab, _part in t_.partition(
+                    lambda i, md: i, axis="sample",
+                    remove_empty=bool(stmt.get("remove_empty"))):
+                n_parts += 1
+                check_profile(model, where + " (between parts)")
+                run(stmt["body"], model, rec, path + "[%d]~" % idx, stats)
+            if n_parts != 3:
+                raise Violation("partition-loop", "%s: %d parts" %
+                                (where, n_parts))
         elif s == "probe_valid":
             seen, detail = observe_reaction(valid_input())
             if seen:
